@@ -16,7 +16,24 @@ SPEC = dict(
           "container held at the end. Container bytes are classified independently (decode + Verify against the entry's roots). "
           "Non-trivial = a case with at least one hostile body / a parser input that is accepted or structurally derived from a valid "
           "CID; distinct = distinct Coq term. Concurrent fetches (L3): two Fetch calls of one CID over an in-process exchange, same "
-          "roots / different roots / a hostile body overtaking the honest one, for all four block types."),
+          "roots / different roots / a hostile body overtaking the honest one, for all four block types. "
+          "group conc: 2-3 real Fetch calls of ONE CID (all four block types, same / different roots), each in its own goroutine and "
+          "parked on channels at the points where it touches shared state (inside Block.UnmarshalFn(root) = right before the "
+          "registration, GetBlocks, NotifyNewBlocks), driven through a schedule of explicit steps enter / reg / sub / check body / "
+          "publish / deliver / recv / finish / cancel: scripted windows (both fetches inside the registration loop before either has "
+          "registered, in both orders; late subscription; split check/publish; three fetches; sequential; duplicate; cancelled "
+          "original; a second copy of the block decoded during an earlier fetch and published later; re-publication by a duplicate "
+          "after the original returned) and random interleavings; observed after every step: which Blocks are populated, accept / "
+          "reject, whose entry the registry holds, and nil / error per Fetch. Non-trivial = at least two fetches. L3 there: a Fetch "
+          "that returned nil with an empty Block or with data not committed by ITS roots; a live registry entry replaced or removed "
+          "by another fetch; the honest body rejected while the fetch that registered the CID waits for it; panic; registry leak. "
+          "group serve: Blockstore.Get over EVERY representation a node serves from - in-memory eds.Rsmt2D, a real store.Store with "
+          "ODS+Q4 files and the recent cache disabled (lower-half rows are handed out as parity halves), the same with Q4 removed, "
+          "store.CachedStore over the files, a store serving from its recent cache - for every row / sample (all four quadrants) / "
+          "row-namespace / range identifier of the ODS width 1, 2, 4 squares (width 8: every row, the rest sampled), fed to the hasher "
+          "of a pending request and the yielded data compared with the square (L3: honest-rejected / served-wrong-data / "
+          "serve-refused per representation, block type and half); for rows the half the accessor hands out and the side the served "
+          "container is labelled with are compared with the model; non-trivial = a parity half."),
     level_text=("Machine-checked theorems (Coq): identifier <-> CID is a bijection (round trip through go-cid's parser model incl. varint "
                 "minimality, canonical parsing, injectivity within and across block types, with the C18 identifier codec underneath); for "
                 "EVERY registry, body and sequence of bodies and an ABSTRACT decode/verify: an accepted body names a registered request, "
@@ -24,12 +41,29 @@ SPEC = dict(
                 "that container (or the earlier verified one); a rejected body changes nothing; other requests, identifiers and roots are "
                 "never touched; what the serving side builds for a valid identifier is accepted by a pending request given that honest "
                 "containers verify (C01/C05); duplicates of a fetch apply the same check and cannot fail on an accepted body under the "
-                "same roots. The model is replayed against the real hasher / Blockstore / CID code on ~2000 cases per run inside Coq. "
-                "Partial: the protobuf envelope and container codecs are abstract (classified by the harness with the real decoders); the "
-                "interleavings of the real bitswap client are represented by an in-process exchange with explicit check/publish steps, not "
-                "explored; data-race freedom of the registry is the Go runtime's (sync.Map + per-entry mutex) and not modelled."),
+                "same roots. Concurrent fetches of one identifier: a step model of ANY number of fetches (registration as one atomic "
+                "load-or-store or, as the 'before' witness of a seeded change, Load ... Store; subscription; bodies decoded by the hasher "
+                "and published to the sessions at any later time; re-publication by NotifyNewBlocks; duplicate path; return with the "
+                "deferred clean-up; cancellation) - for EVERY interleaving a Fetch that returns nil holds a populated Block verified "
+                "against its own roots (C10_conc_fetch_sound, the code with fix-c10-3), no Block ever holds an unverified container, the "
+                "atomic registration keeps the registry entry with the one in-flight fetch that registered it and the honest body for it "
+                "is accepted (C10_conc_registry_owner / _pending_served); refuted with vm_compute witnesses: the two-step registration "
+                "(C10_conc_twostep_refuted / _displaces) and the code before fix-c10-3, where a self-registered fetch trusts the hasher "
+                "blindly (C10_conc_trust_refuted: stale publication, late NotifyNewBlocks) - both witnesses are replayed on the real "
+                "Fetch. Serving a row from either half an accessor may hand out verifies and yields the row (C10_serve_row_any_half), "
+                "the flag dropped does not. The model is replayed against the real hasher / Blockstore / CID / Fetch code on ~2400 cases "
+                "per run inside Coq. "
+                "Partial: the protobuf envelope and container codecs are abstract (classified by the harness with the real decoders); "
+                "representation-independence of what the accessors return (files, Q4, caches, proofs cache) is C05's theorem - here the "
+                "row side labelling is modelled and the rest is covered by L3 over all representations; the real bitswap client is "
+                "represented by an in-process exchange with boxo's publication rule (sessions that want the CID at publication time, once "
+                "per session), its interleavings are forced by the harness at the granularity of the model's steps, not at instruction "
+                "level; data-race freedom of the registry is the Go runtime's (sync.Map + per-entry mutex) and not modelled; liveness "
+                "(a duplicate whose original was cancelled waits until its own context ends) is not claimed."),
     trusted_base=[
-        "models Shwap/Cid.v (go-cid Cast incl. CIDv0 special case, go-varint minimality and 9-byte limit, go-multihash reader, validateCID/extractFromCID, block_registry specs) and Shwap/Bitswap.v (hasher.write, the four UnmarshalFn, duplicate path of fetch, Blockstore.Get) hand-written; tied by harness/share/shwap/p2p/bitswap/zz_verif_c10_test.go whose observations are re-computed inside Coq on every run",
+        "models Shwap/Cid.v (go-cid Cast incl. CIDv0 special case, go-varint minimality and 9-byte limit, go-multihash reader, validateCID/extractFromCID, block_registry specs) and Shwap/Bitswap.v (hasher.write, the four UnmarshalFn, duplicate path of fetch, Blockstore.Get, Section Conc: the step model of concurrent fetches of one CID, Section ServeRow: AxisHalf.ToRow / Row.Shares) hand-written; tied by harness/share/shwap/p2p/bitswap/zz_verif_c10_{test,conc_test,serve_test}.go whose observations are re-computed inside Coq on every run",
+        "concurrent fetches: the exchange is an in-process hub written after boxo bitswap/client (receiveBlocksFrom / NotifyNewBlocks: publish to the sessions that want the CID at that moment, a session receives a CID once, the channel closes when everything wanted was delivered or the context ends); a decoded body and its publication are separate steps because boxo decodes in the network layer and publishes later; steps finer than the park points (e.g. between NotifyNewBlocks and the duplicate path) exist in the model only",
+        "serving: the erasure code in C10_serve_row_any_half is abstract (recover (parity l) = l); Row.Verify is taken as equality of the reconstructed row with the committed row (root injectivity, Base/Sym); which half each representation hands out is observed from the real accessors on every run (rep_parity) - that they return the stored data is C05",
         "identifier codec: Shwap/Ids.v (C18), under its own correspondence",
         "verification and container decoding abstract in the theorems; serve_accept assumes that the container the accessor produces verifies (completeness of C01/C05) and that Marshal/Unmarshal round-trips (C18 oracle)",
         "mocked: the bitswap exchange for the concurrent-fetch scenarios (in-process: check = Prefix.Sum with the registered hash function, publish = hand the body to every session wanting its CID); the schedule 'hostile body checked after, published before the honest one' is constructed, not found by exploration",
